@@ -84,6 +84,17 @@ class ExcHierarchy:
 
 # -- graph --------------------------------------------------------------------
 
+def _walk_own(fn):
+    """Nodes of a function body, not descending into nested functions / classes / lambdas."""
+    todo = list(fn.body) if hasattr(fn, "body") and isinstance(fn.body, list) else []
+    while todo:
+        x = todo.pop()
+        yield x
+        if isinstance(x, (ast.FunctionDef, ast.AsyncFunctionDef, ast.ClassDef, ast.Lambda)):
+            continue
+        todo.extend(ast.iter_child_nodes(x))
+
+
 class Node:
     __slots__ = ("id", "kind", "ast", "label", "succ", "pred", "ctx", "handler", "lineno", "extra")
 
@@ -357,6 +368,70 @@ class CFG:
             return "notnone"
         return None
 
+    def _returns_class(self, fi, depth: int):
+        """The program class every normal completion of *fi* returns a fresh instance of (None if not uniform)."""
+        if depth > 3 or not self._never_none(fi, depth):
+            return None
+        found = None
+        for x in _walk_own(fi.node):
+            if isinstance(x, ast.Return):
+                v = x.value.value if isinstance(x.value, ast.Await) else x.value
+                if not (isinstance(v, ast.Call) and dotted(v.func)):
+                    return None
+                try:
+                    k_, o_ = self.inliner.P.resolve_dotted(fi.module, dotted(v.func), fi)
+                except Exception:
+                    return None
+                if k_ == "func":
+                    o_ = self._returns_class(o_, depth + 1) if o_ is not fi else None
+                    k_ = "class" if o_ is not None else None
+                if k_ != "class":
+                    return None
+                if found is not None and found is not o_:
+                    return None
+                found = o_
+        return found
+
+    def _never_none(self, fi, depth: int) -> bool:
+        """Every normal completion of program function *fi* returns a value that is visibly not None
+        (a literal, a container display, an instance of a program class, or the result of such a function)."""
+        if depth > 3 or fi is None or getattr(fi, "node", None) is None or isinstance(fi.node, ast.Lambda):
+            return False
+        if any(isinstance(x, (ast.Yield, ast.YieldFrom)) for x in _walk_own(fi.node)):
+            return False
+
+        def ends(stmts) -> bool:
+            if not stmts:
+                return False
+            last = stmts[-1]
+            if isinstance(last, (ast.Return, ast.Raise)):
+                return True
+            if isinstance(last, ast.If):
+                return ends(last.body) and ends(last.orelse)
+            if isinstance(last, (ast.With, ast.AsyncWith)):
+                return ends(last.body)
+            if isinstance(last, ast.Try):
+                return (ends(last.finalbody) or ((ends(last.body) or ends(last.orelse)) and all(ends(h.body) for h in last.handlers)))
+            return False
+
+        if not ends(fi.node.body):
+            return False
+        for x in _walk_own(fi.node):
+            if isinstance(x, ast.Return):
+                v = x.value.value if isinstance(x.value, ast.Await) else x.value
+                c = self._value_class(v)
+                if c == "notnone" or (isinstance(c, tuple) and c[1] is not None):
+                    continue
+                if isinstance(v, ast.Call) and dotted(v.func):
+                    try:
+                        k_, o_ = self.inliner.P.resolve_dotted(fi.module, dotted(v.func), fi)
+                    except Exception:
+                        return False
+                    if k_ == "class" or (k_ == "func" and o_ is not fi and self._never_none(o_, depth + 1)):
+                        continue
+                return False
+        return True
+
     def _assign_then_if(self, a, ifs: ast.If, ctxs) -> Optional[Frag]:
         tgts = a.targets if isinstance(a, ast.Assign) else [a.target]
         if len(tgts) != 1 or a.value is None:
@@ -422,7 +497,13 @@ class CFG:
                 except Exception:
                     kind_ = None
                 if kind_ == "class":
-                    c = "notnone"
+                    c = ("inst", _obj)
+                elif kind_ == "func":
+                    k = self._returns_class(_obj, 0)
+                    if k is not None:
+                        c = ("inst", k)
+                    elif self._never_none(_obj, 0):
+                        c = "notnone"
             return c
 
         for (anode, outs, vexpr) in ictx.sites:
@@ -526,8 +607,19 @@ class CFG:
             return None
         if isinstance(e, ast.Name) and e.id in d:
             c = d[e.id]
-            if isinstance(c, tuple):
+            if isinstance(c, tuple) and c[0] == "const":
                 return bool(c[1])
+            return None
+        if isinstance(e, ast.Call) and isinstance(e.func, ast.Name) and e.func.id == "isinstance" and len(e.args) == 2 \
+                and isinstance(e.args[0], ast.Name) and e.args[0].id in d and not e.keywords:
+            c = d[e.args[0].id]
+            if isinstance(c, tuple) and c[0] == "const":
+                # None / str / int literals are instances of no program class
+                return False if self._program_classes(e.args[1]) else None
+            if isinstance(c, tuple) and c[0] == "inst":
+                cls_ = self._program_classes(e.args[1])
+                if cls_:
+                    return any(k in c[1].mro for k in cls_)
             return None
         if isinstance(e, ast.Compare) and len(e.ops) == 1 and isinstance(e.left, ast.Name) and e.left.id in d \
                 and isinstance(e.comparators[0], ast.Constant):
@@ -535,9 +627,11 @@ class CFG:
             k = e.comparators[0].value
             op = e.ops[0]
             if isinstance(op, (ast.Is, ast.IsNot)) and k is None:
-                isnone = isinstance(c, tuple) and c[1] is None
+                isnone = isinstance(c, tuple) and c[0] == "const" and c[1] is None
                 return isnone if isinstance(op, ast.Is) else not isnone
             if isinstance(op, (ast.Eq, ast.NotEq)):
+                if isinstance(c, tuple) and c[0] == "inst":
+                    return isinstance(op, ast.NotEq) if k is None else None
                 if isinstance(c, tuple):
                     try:
                         r = (c[1] == k)
@@ -547,6 +641,25 @@ class CFG:
                 if k is None and c == "notnone":
                     return isinstance(op, ast.NotEq)
         return None
+
+    def _program_classes(self, e: ast.AST):
+        """The program classes named by the second argument of isinstance() (a name or a tuple of names); [] if any
+        of them is not a class of the program."""
+        elts = list(e.elts) if isinstance(e, ast.Tuple) else [e]
+        out = []
+        rfi = self._resolve_fi() if self.inliner is not None else self.fi
+        for x in elts:
+            d_ = dotted(x)
+            if not d_ or self.inliner is None:
+                return []
+            try:
+                k_, o_ = self.inliner.P.resolve_dotted(rfi.module, d_, rfi)
+            except Exception:
+                return []
+            if k_ != "class":
+                return []
+            out.append(o_)
+        return out
 
     # -- conditions with short-circuit
     def _cond(self, e: ast.AST, ctxs) -> Tuple[Node, List[Tuple[Node, str]], List[Tuple[Node, str]]]:
